@@ -323,18 +323,22 @@ def truncate_basename(basename, iso_level, is_dir):
      specified.
     """
     if iso_level == 4:
-        # ISO level 4 allows "anything", so just return the original.
-        return basename
+        # ISO level 4 allows "anything", but a semicolon always introduces the
+        # version, and the identifiers 0x00 and 0x01 are reserved for the 'dot'
+        # and 'dotdot' records.
+        if basename in ('\x00', '\x01'):
+            return '_'
+        return basename.replace(';', '_')
 
     if iso_level == 1:
         maxlen = 8
     else:
         maxlen = 31 if is_dir else 30
 
-    # For performance reasons, we first truncate the string to the length
-    # allowed.  Second, ISO9660 Levels 1, 2, and 3 require all uppercase names,
-    # so we uppercase it.
-    valid_base = basename[:maxlen].upper()
+    # ISO9660 Levels 1, 2, and 3 require all uppercase names, so we uppercase
+    # it.  Uppercasing can change the length (e.g. the German sharp s), so it
+    # has to happen before the string is truncated to the length allowed.
+    valid_base = basename.upper()[:maxlen]
 
     # Finally, ISO9660 requires only uppercase letters, 0-9, and underscore.
     # Translate any non-compliant characters to underscore and return that.
@@ -382,12 +386,12 @@ def mangle_file_for_iso9660(orig, iso_level):
     valid_ext = ''
     splitter = orig.split('.')
     if iso_level == 4:
-        # A level 4 ISO allows 'anything', so just return the original.
+        # A level 4 ISO allows 'anything' (but see truncate_basename()).
         if len(splitter) == 1:
-            return orig, valid_ext
+            return truncate_basename(orig, iso_level, False), valid_ext
 
         ext = splitter[-1]
-        return orig[:len(orig) - len(ext) - 1], ext
+        return truncate_basename(orig[:len(orig) - len(ext) - 1], iso_level, False), ext.replace(';', '_')
 
     if len(splitter) == 1:
         # No extension specified, leave ext empty
@@ -398,12 +402,12 @@ def mangle_file_for_iso9660(orig, iso_level):
 
         # If the extension is empty, too long (> 3), or contains any illegal
         # characters, we treat it as part of the basename instead
-        extlen = len(ext)
+        tmpext = ext.upper()
+        extlen = len(tmpext)
         if extlen == 0 or extlen > 3:
             valid_ext = ''
             basename = orig
         else:
-            tmpext = ext.upper()
             valid_ext, numsub = re.subn('[^A-Z0-9_]{1}', r'_', tmpext)
             if numsub > 0:
                 valid_ext = ''
